@@ -44,6 +44,21 @@ def crc_case(ctx, data, label):
     if r1 != r2:
         raise RuntimeError(f"harness: CRC references disagree on {data.hex()}")
     got = H.calc_crc24q(data)
+    if len(data) % 5 == 2:
+        # the same octets behind a strided (non-contiguous) memoryview: still a sequence of octets
+        inter = bytearray(2 * len(data))
+        inter[::2] = data
+        try:
+            g2 = H.calc_crc24q(memoryview(inter)[::2])
+        except Exception as e:
+            ctx.violation("crc-value", f"calc_crc24q(strided memoryview of {len(data)} octets) raised {type(e).__name__}: {e}",
+                          {"kind": "crc", "data": data.hex()})
+            return False
+        if g2 != got:
+            ctx.violation("crc-value", f"calc_crc24q differs between bytes and a strided memoryview of the same octets",
+                          {"kind": "crc", "data": data.hex()})
+            return False
+        ctx.hit("strided_views_checked")
     ctx.hit("crc_compared")
     if got != r1:
         ctx.violation("crc-value", f"calc_crc24q({label}, {len(data)} bytes {data[:12].hex()}..) = {got!r}, "
